@@ -1,7 +1,7 @@
 (** C19 — read-only and null back-ends never write and never execute. Statements only. *)
 From Coq Require Import List ZArith String Bool.
 From Memento Require Import Storage.Cache Storage.Spec Storage.Layer Storage.LayerProofs
-  Storage.ReadOnly Storage.ReadOnlyProofs Gen.SourceFacts Gen.FactsOK.
+  Storage.ReadOnly Storage.ReadOnlyProofs Gen.SourceFacts Gen.FactsCache.
 Import ListNotations.
 Open Scope Z_scope.
 
